@@ -849,3 +849,41 @@ func VfH_C06_reuse_state() {
 	}
 	vfReach("end")
 }
+
+// H-C06-line-hyphen: the look-behind rules around hyphens and Hebrew (LB21, LB21a, LB21b, LB12a, LB20 with LB9):
+// sequences of 4 (5 thorough) runes over narrow representatives of {HL, HY, BA, BB, CM, AL, SY, GL, CB, SP}.
+func vfLineHyphenReps() []rune {
+	want := []*ucdTable{ucd.BreakHL, ucd.BreakHY, ucd.BreakBA, ucd.BreakBB, ucd.BreakCM, ucd.BreakAL, ucd.BreakSY,
+		ucd.BreakGL, ucd.BreakCB, ucd.BreakSP}
+	seen := map[*ucdTable]bool{}
+	var out []rune
+	for _, r := range vfReps {
+		c := ucd.LookupLineBreakClass(r)
+		for _, w := range want {
+			if c == w && !seen[c] && !unicode.Is(ucd.LargeEastAsian, r) {
+				seen[c] = true
+				out = append(out, r)
+			}
+		}
+	}
+	return out
+}
+
+func VfH_C06_line_hyphen() {
+	reps := vfLineHyphenReps()
+	n := 4
+	if vfThorough() {
+		n = 4 + vfChoice("extra", 2)
+	}
+	text := make([]rune, n)
+	for i := range text {
+		text[i] = reps[vfInt("hyphenRep", 0, len(reps)-1)]
+	}
+	var seg Segmenter
+	seg.Init(text)
+	want := vfLineRef(text)
+	for i := 0; i <= n; i++ {
+		vfAssert((seg.attributes[i]&lineBoundary != 0) == want[i], "line break opportunity differs from UAX #14 (LB rules)")
+	}
+	vfReach("end")
+}
